@@ -19,7 +19,7 @@ for c, k in items:
         continue
     res = {}
     try:
-        for p in [c, "ALL"]:
+        for p in ([c] if os.environ.get("KEEP_OWN_ONLY") == "1" else [c, "ALL"]):
             r = subprocess.run([os.path.join(ROOT, "check"), p, "quick"], cwd=ROOT, stdout=subprocess.PIPE, stderr=subprocess.STDOUT, env=dict(os.environ, VERIF_DEV_NATIVE_ONLY="1"))
             out = r.stdout.decode("utf-8", "replace")
             keys = re.findall(r"^  key=(\S+) count=(\d+)", out, re.M)
@@ -28,4 +28,4 @@ for c, k in items:
             print(c, k, p, "exit", r.returncode, [k_ for k_, _ in keys][:4], flush=True)
     finally:
         subprocess.run(["git", "-C", "/repo", "checkout", "--", "."])
-    json.dump(res, open(os.path.join(root, c, "keepeval%d.json" % k), "w"), indent=1)
+    json.dump(res, open(os.path.join(root, c, "keepeval%d%s.json" % (k, os.environ.get("KEEP_TAG", ""))), "w"), indent=1)
